@@ -243,6 +243,27 @@ window — the very predicate (`Halo.swapsOn`, `Halo.WindowedOn`) the theorems `
 def stepHasWindowSwap (pd : Pending) (_st : WorldSt) : Bool :=
   (swapsOn pd.wBefore pd.op).any fun (_, x, y, a) => inWindow x y a
 
+/-- the same decision from the implementation's observations alone, for use after the sequence has diverged from
+the model: `some b` for everything but router routes (whose per-hop amounts only the model knows), `none` for those -/
+def obsWindowSwap (pd : Pending) (st : WorldSt) : Option Bool :=
+  let one (p : Nat) (offer : Asset) (amt : Nat) (funds : List (Nat × Nat)) : Option Bool :=
+    match pairViewOf (curVal st s!"pair {p}") with
+    | some v =>
+      if !poolReadable (prevValFirst st s!"pool {p}") then none else
+      let (r0, r1, _) := poolOf (prevValFirst st s!"pool {p}")
+      let ask := if offer = v.a0 then v.a1 else v.a0
+      let x := if offer = v.a0 then r0 else r1
+      let y := (if offer = v.a0 then r1 else r0) + fundsOf funds ask
+      some (inWindow x y amt)
+    | none => none
+  match pd.op with
+  | .pair _ p funds (.swap offer amt _ _ _) => one p offer amt funds
+  | .pair _ p _ (.receive _ amt (.swap offer _ _ _ _)) => one p offer amt []
+  | .tokSend _ _ d amt (.swap offer _ _ _ _) => if st.pairsSeen.contains d then one d offer amt [] else some false
+  | .tokSend _ _ _ _ (.routerOps ..) => none
+  | .router .. => none
+  | _ => some false
+
 /-- accounts an operation may touch (C07) -/
 def touched (st : WorldSt) (op : Op) : List Nat :=
   let allPairs := st.pairsSeen
@@ -277,14 +298,16 @@ def fails (p note : String) (b : Bool) : List (String × String) := if b then []
 /-- all property predicates evaluated on the implementation's before/after observations of one step.
 `post = true`: the sequence has already diverged from the model (reported once); the oracles that read only the
 implementation's observations keep running so that a concrete failing input is found, minus the standing
-("at all times") ones, which would repeat on every later step, and C01/C03, whose known-finding tag needs the model -/
+("at all times") ones, which would repeat on every later step; C01/C03 are judged with the known-finding tag decided
+from the observed reserves (`obsWindowSwap`), and skipped on router routes, where that needs the model -/
 def oracles (st : WorldSt) (pd : Pending) (post : Bool := false) : List (String × String) := Id.run do
   let mut out : List (String × String) := []
   let changedBal := (st.changes.filter fun c => c.2.1 ≠ "").filterMap fun (k, o, n) =>
     match k.splitOn " " with
     | ["bal", a, who] => some (parseAsset a, who.toNatD, (n.toNatD : Int) - (o.toNatD : Int))
     | _ => none
-  let windowed := stepHasWindowSwap pd st
+  let windowedO : Option Bool := if post then obsWindowSwap pd st else some (stepHasWindowSwap pd st)
+  let windowed := windowedO.getD false
   let kw := if windowed then "known=KF-SWAP-WINDOW " else ""
   -- a failed call changes nothing
   if !pd.implOk then
@@ -341,10 +364,10 @@ def oracles (st : WorldSt) (pd : Pending) (post : Bool := false) : List (String 
         | _, _ => pure ()
       | none => pure ()
   -- C03: reserve0*reserve1/S^2 never decreases while the supply is positive (every pair, every step)
-  for p in (if post then [] else st.pairsSeen) do
+  for p in (if windowedO.isNone then [] else st.pairsSeen) do
     let (r0, r1, S) := poolOf (prevValFirst st s!"pool {p}")
     let (r0', r1', S') := poolOf (curVal st s!"pool {p}")
-    if S > 0 then
+    if S > 0 && poolReadable (curVal st s!"pool {p}") then
       if !(decide (0 < S') && decide (r0 * r1 * (S' * S') ≤ r0' * r1' * (S * S))) then
         out := out ++ [("C03", s!"{kw}share value of pair {p} decreased: ({r0},{r1},{S}) -> ({r0'},{r1'},{S'})")]
   if pd.implOk then
@@ -427,7 +450,7 @@ def oracles (st : WorldSt) (pd : Pending) (post : Bool := false) : List (String 
           let (r0', r1', _) := poolOf (curVal st s!"pool {p}")
           let askAfter := if ask = v.a1 then r1' else r0'
           let askBefore := if ask = v.a1 then r1 else r0
-          if !post && !(decide (r0 * r1 ≤ r0' * r1') && (decide (0 < askAfter) || askBefore = 0)) then
+          if windowedO.isSome && !(decide (r0 * r1 ≤ r0' * r1') && (decide (0 < askAfter) || askBefore = 0)) then
             out := out ++ [("C01", s!"{kw}reserve product fell or ask reserve emptied: ({r0},{r1}) -> ({r0'},{r1'})")]
           -- C06 on reported amounts
           let x := if offer = v.a0 then r0 else r1
